@@ -31,6 +31,10 @@ CLAIMED = {
     text="specs/Compare.tla defines == (same extents and equal elements) and < (lexicographic over the leading dimension, recursively, proper prefix smaller) on operand values; TLC checks trichotomy, irreflexivity, antisymmetry, transitivity, ==-transitivity and <=/>= consistency on every triple within the bounds, and emits every pair with the six prescribed results; each pair is materialised as array, const array, array_ref, rotated/strided view, padded sub-block view and array<long> (36 combinations, plus aliasing views of one storage) and all six real operators are evaluated in both argument orders.",
     note="bounded: D 1..3 (4 in thorough), extents 0..3, <= 6 elements per operand, values {0,1(,2)}; for empty operands only ==/!= consistency is demanded; ordering between different element types is not provided by the library and not demanded; D=0 not covered.",
     ref="DESIGN.md section 5 C07"),
+ "C08": dict(
+    text="Histories of specs/ArrayOps.tla (every constructor form, copy, move, assignment with equal and different extents, reextent in all three overloads, clear, swap, reshape, assign, destruction) are executed on arrays of a tracked element type over a ledger allocator; every allocate/deallocate/construct/assign/destroy event the library performs is recorded and stepped through the TLA+ monitor specs/Lifecycle.tla, which evaluates at every event ConstructOnRaw, UseOnAlive, DestroyOnAlive, DeallocExact (size, allocator, no live elements) and at the end of every operation HandleConsistent and NoLeak; element values are compared with the specification as in C04; a second run over int with pattern-filled storage demands that elements left unspecified by sizing constructors and reextent were not written.",
+    note="bounded: D 1..2 (3 in thorough), extents 0..3, histories of <= 3 operations over 2 arrays (about 3 million events in the quick tier); serialization-load histories are exercised by C17; trusted: the tracked type/allocator report faithfully.",
+    ref="DESIGN.md section 5 C08", tech="TLA+ trace monitor (Lifecycle.tla) validating event traces recorded from the implementation on TLC-generated histories"),
 }
 
 props = [json.loads(l) for l in open(os.path.join(V, "properties.jsonl"))]
